@@ -509,6 +509,15 @@ struct VecAdapter {
 };
 
 // ---- cross-type operations
+extern unsigned g_pairVariant;  // overload selector of the next cross-type operation (bit 0: the free swap(a, b) where one exists)
+template <class A, class B>
+auto free_swap_or_swap2(A &a, B &b, int) -> decltype(swap(a, b), void()) {
+  if (g_pairVariant & 1) swap(a, b);  // found by ADL: the library's free swap between vectors that differ only in their inline capacity
+  else a.swap2(b);
+}
+template <class A, class B>
+void free_swap_or_swap2(A &a, B &b, long) { a.swap2(b); }
+
 template <class A, class B>
 struct VecPairAdapter {
   static void swap2(void *a, void *b, Result &res) {
@@ -516,7 +525,7 @@ struct VecPairAdapter {
     res.outcome = OUT_RETURNED;
     try {
       Arm arm;
-      static_cast<A *>(a)->swap2(*static_cast<B *>(b));
+      free_swap_or_swap2(*static_cast<A *>(a), *static_cast<B *>(b), 0);
     } catch (SimFault &) { res.outcome = OUT_THREW_FAULT;
     } catch (std::bad_alloc &) { res.outcome = OUT_THREW_BADALLOC;
     } catch (std::out_of_range &e) { res.outcome = OUT_THREW_LIMIT_OOR; res.exWhat = e.what();
